@@ -6,6 +6,7 @@ unknown, no branch pruned).  The set the analysis treats as reaching at a use = 
 SYMBOL_IS_USED edge to the use statement in the entry's state-flow graph (what the taint phase consumes).
 """
 import os
+import re
 
 from harness import common, gen_ctl, girsem, lianrun, walker
 from harness.common import Collector
@@ -22,7 +23,8 @@ RULE = ("Python methods: prologue x = c; y = c, a control shape (if / if-else, w
         "of v before u is in the analysis' set; (2) no dead definitions - every definition in the set has a path to u in lian's own "
         "CFG that passes no other definition of v; (3) on loop-free methods the set equals the classical reaching-definitions "
         "fixpoint over lian's CFG. Non-trivial = a method with a variable that has >= 2 definitions and a use reached by >= 2 "
-        "walker paths; distinct by shape.")
+        "walker paths; distinct by shape. The enumerated shapes and half as many sampled shapes are checked once more through the "
+        "JavaScript frontend (function m(c0, c1, c2, n, lst, y) { var x; ... var t<k> = v; }, no while-else).")
 
 ASSUMPTIONS = [
     "the analysis' reaching set at use u of v is read from SYMBOL_IS_USED edges (symbol node def_stmt_id -> statement node u) of the "
@@ -40,23 +42,37 @@ def build_method(shape):
     return pro + shape + epi
 
 
+UNIT = {"python": "a.py", "javascript": "a.js"}
+
+
+def set_lang(lang):
+    global LANG
+    LANG = lang
+
+
 def render(blocks):
     # every method takes its parameters (so that y is one): shift the parameterless slots away
     src = gen_ctl.render_methods(LANG, blocks, extra_params=", y")
-    return src.replace("():", "(c0, c1, c2, n, lst, y):")
+    if LANG == "python":
+        return src.replace("():", "(c0, c1, c2, n, lst, y):")
+    # javascript: x is a local declared at the top of the function, y a parameter, the copies t<k> are declared locals
+    src = src.replace("var x = 0;\n", "")
+    src = re.sub(r"function (m\d+)\([^)]*\) \{", lambda m: "function %s(c0, c1, c2, n, lst, y) {\n    var x;" % m.group(1), src)
+    return re.sub(r"^(\s+)(t\d+) = ", r"\1var \2 = ", src, flags=re.M)
 
 
 def analyse_batch(shapes, col, label):
     blocks = [build_method(s) for s in shapes]
     src = render(blocks)
-    try:
-        compile(src, "a.py", "exec")
-    except SyntaxError as e:
-        col.error("generator produced invalid Python (%s):\n%s" % (e, src[:500]))
-        return
+    if LANG == "python":
+        try:
+            compile(src, "a.py", "exec")
+        except SyntaxError as e:
+            col.error("generator produced invalid Python (%s):\n%s" % (e, src[:500]))
+            return
     sd = lianrun.write_settings(os.path.join(lianrun.scratch_dir(), "c06-settings"),
                                 entry=[{"method_list": ["m%d" % i for i in range(len(blocks))]}])
-    res = lianrun.analyze({"a.py": src}, settings_dir=sd, lang=LANG)
+    res = lianrun.analyze({UNIT[LANG]: src}, settings_dir=sd, lang=LANG)
     try:
         if res.exc is not None:
             if len(shapes) > 1:
@@ -67,7 +83,7 @@ def analyse_batch(shapes, col, label):
             col.evaluations += 1
             col.discrepancy((ID, LANG, "analysis-crash", type(res.exc).__name__),
                             "pipeline fails on a generated method: %s: %s" % (type(res.exc).__name__, str(res.exc)[:200]),
-                            {"shapes": [shapes[0]]})
+                            {"shapes": [shapes[0]], "lang": LANG})
             return
         from lian.config.constants import SFG_EDGE_KIND, SFG_NODE_KIND
         L = res.loader
@@ -83,7 +99,7 @@ def analyse_batch(shapes, col, label):
             row = by_name.get("m%d" % i)
 
             def case_fn(shape=shape):
-                return {"shapes": [shape]}
+                return {"shapes": [shape], "lang": LANG}
             if row is None or int(row["stmt_id"]) not in eps:
                 col.discrepancy((ID, LANG, "not-an-entry"), "method m%d is not an entry point" % i, case_fn())
                 continue
@@ -266,11 +282,14 @@ def check_method(prog, row, cfg, reach, shape, col, case_fn):
 
 
 def kinds():
+    if LANG != "python":
+        return {"s", "if", "wh", "fi", "br", "co", "rt"}        # while-else is Python's
     return {"s", "if", "wh", "fi", "br", "co", "rt", "whelse"}
 
 
 def sample_shard(arg):
-    seed, n_examples = arg
+    seed, n_examples = arg[:2]
+    set_lang(arg[2] if len(arg) > 2 else "python")
     import hypothesis
     from hypothesis import settings, HealthCheck, strategies as st
     col = Collector()
@@ -293,7 +312,8 @@ def sample_shard(arg):
 
 
 def enum_shard(arg):
-    shard, nshards, max_nodes = arg
+    shard, nshards, max_nodes = arg[:3]
+    set_lang(arg[3] if len(arg) > 3 else "python")
     col = Collector()
     rot = [("def", "x"), ("use", "x"), ("def", "y"), ("upd", "x"), ("use", "y"), ("def", "y"), ("use", "x"), ("upd", "y")]
     batch = []
@@ -323,6 +343,7 @@ def _tuplify(x):
 
 def check_case(case):
     col = Collector()
+    set_lang(case.get("lang", "python"))
     analyse_batch([_tuplify(s) for s in case["shapes"]], col, "replayed")
     return col
 
@@ -356,5 +377,9 @@ def main(tier, seed, t0):
     max_nodes = 3 if tier == "quick" else 4
     col.merge(common.run_shards(enum_shard, [(i, nsh, max_nodes) for i in range(nsh)]))
     col.merge(common.run_shards(sample_shard, [(common.shard_seed(seed, i), n_sampled // nsh) for i in range(nsh)]))
+    # the same three relations through the JavaScript frontend (x: `var x;` at the top of the function, y: a parameter)
+    col.merge(common.run_shards(enum_shard, [(i, nsh, max_nodes, "javascript") for i in range(nsh)]))
+    col.merge(common.run_shards(sample_shard, [(common.shard_seed(seed, 500 + i), (n_sampled // 2) // nsh, "javascript") for i in range(nsh)]))
+    set_lang("python")
     lianrun.cleanup_scratch()
     return common.finish(ID, tier, seed, col, t0, RULE, ASSUMPTIONS)
